@@ -415,7 +415,26 @@ func instantiateForallsOnce(text string, seen map[string]bool) []string {
 			defs[m[1]] = m[2]
 		}
 	}
-	norm := func(t string) string { return eraseVersions(simplifyAccessors(expandDefs(t, defs))) }
+	// a string-valued phi all of whose incoming values are windows of one text reads that text's array: record
+	// (s-base phi) -> base so that hypotheses about the text are instantiated at reads through the phi
+	baseAlias := phiBaseAliases(text, defs)
+	norm := func(t string) string {
+		t = expandDefs(t, defs)
+		for k := 0; k < 3 && len(baseAlias) > 0 && strings.Contains(t, "(s-base "); k++ {
+			changed := false
+			for v, b := range baseAlias {
+				if strings.Contains(t, "(s-base "+v+")") {
+					t = strings.ReplaceAll(t, "(s-base "+v+")", b)
+					changed = true
+				}
+			}
+			if !changed {
+				break
+			}
+			t = expandDefs(t, defs)
+		}
+		return eraseVersions(simplifyAccessors(t))
+	}
 	type sel struct{ arr, idx string }
 	var sels []sel
 	selSeen := map[string]bool{}
@@ -547,6 +566,61 @@ func instantiateForallsOnce(text string, seen map[string]bool) []string {
 				if n >= 40 {
 					break
 				}
+			}
+		}
+	}
+	return out
+}
+
+var phiEqLine = regexp.MustCompile(`(?m)^\(assert \(=> (.*)\)\)$`)
+
+// phiBaseAliases finds the names defined only by guarded equations (=> edge (= v term)) - the encoding of a phi -
+// whose terms all have the same base array after expanding definitions, and maps each to that base.
+func phiBaseAliases(text string, defs map[string]string) map[string]string {
+	terms := map[string][]string{}
+	for _, m := range phiEqLine.FindAllStringSubmatch(text, -1) {
+		in := "(=> " + m[1] + ")"
+		if !balanced2(in) {
+			continue
+		}
+		parts := sexprParts(in)
+		if len(parts) != 3 {
+			continue
+		}
+		eq := sexprParts(parts[2])
+		if len(eq) != 3 || eq[0] != "=" || strings.ContainsAny(eq[1], "() ") || !strings.Contains(eq[1], "v!") {
+			continue
+		}
+		terms[eq[1]] = append(terms[eq[1]], eq[2])
+	}
+	out := map[string]string{}
+	for round := 0; round < 3; round++ {
+		for v, ts := range terms {
+			if _, isDef := defs[v]; isDef || out[v] != "" {
+				continue
+			}
+			base := ""
+			ok := true
+			for _, t := range ts {
+				b := "(s-base " + t + ")"
+				b = expandDefs(b, defs)
+				for a, ab := range out {
+					b = strings.ReplaceAll(b, "(s-base "+a+")", ab)
+				}
+				b = simplifyAccessors(expandDefs(b, defs))
+				if strings.Contains(b, "(mk-str") || strings.Contains(b, "q!") {
+					ok = false
+					break
+				}
+				if base == "" {
+					base = b
+				} else if base != b {
+					ok = false
+					break
+				}
+			}
+			if ok && base != "" && base != "(s-base "+v+")" {
+				out[v] = base
 			}
 		}
 	}
